@@ -44,9 +44,86 @@ def corpus_trees(run, rng, nv_pool=3):
 
 
 # ---------------------------------------------------------------- C14
+def annotation_family(run):
+    """fn / defn over every signature HyBind enumerates (<= 3 parameters), with an annotation on each
+    parameter in turn, on all of them, and on the return value: hy2py's text must parse and define a
+    function that binds its arguments like the compiled AST does."""
+    import ast as pyast
+    import hy
+    from hy.compiler import hy_compile
+    r = tlc.run("HyBind", tlc.cfg(constants={"MaxParams": 3, "MaxItems": 0}, invariants=["Export"]), run.work, workers=8,
+                label="c14-signatures")
+    sigs = [x["sig"] for x in r.ex("CASE")]
+    run.add_tlc(r, f"HyBind signatures of <= 3 parameters ({len(sigs)}) for the annotated fn / defn family")
+
+    def hy_params(sig, ann):
+        out, seen_slash = [], False
+        for j, p_ in enumerate(sig, 1):
+            k, d = p_["k"], p_["d"]
+            if k != "po" and not seen_slash and any(q_["k"] == "po" for q_ in sig):
+                out.append("/")
+                seen_slash = True
+            a = "#^ int " if j in ann else ""
+            nm = f"p{j}"
+            if k in ("po", "n", "ko"):
+                out.append(f"{a}[{nm} {900 + j}]" if d else f"{a}{nm}")
+            elif k == "va":
+                out.append(f"{a}#* {nm}")
+            elif k == "bs":
+                out.append("*")
+            else:
+                out.append(f"{a}#** {nm}")
+        if any(q_["k"] == "po" for q_ in sig) and not seen_slash:
+            out.append("/")
+        return " ".join(out)
+    n = 0
+    for sig in sigs:
+        names = [f"p{j}" for j, p_ in enumerate(sig, 1) if p_["k"] != "bs"]
+        annotatable = [j for j, p_ in enumerate(sig, 1) if p_["k"] != "bs"]
+        anns = [set()] + [{j} for j in annotatable] + ([set(annotatable)] if len(annotatable) > 1 else [])
+        # a call that satisfies the signature: required positionals positionally, required keyword-only by keyword
+        pos = [str(10 * j) for j, p_ in enumerate(sig, 1) if p_["k"] in ("po", "n") and not p_["d"]]
+        kws = [f":p{j} {10 * j}" for j, p_ in enumerate(sig, 1) if p_["k"] == "ko" and not p_["d"]]
+        call = " ".join(pos + kws)
+        for ann in anns:
+            for head, ret in (("fn", ""), ("fn", "#^ int "), ("defn hyv-g", ""), ("defn hyv-g", "#^ int ")):
+                if head == "fn":
+                    text = f"(setv F (fn {ret}[{hy_params(sig, ann)}] [{' '.join(names)}]))\n(setv OUT (F {call}))\n"
+                else:
+                    text = f"({head.split()[0]} {ret}hyv-g [{hy_params(sig, ann)}] [{' '.join(names)}])\n(setv OUT (hyv-g {call}))\n"
+                run.case(text)
+                n += 1
+                m1 = types.ModuleType("hyv_ann1")
+                try:
+                    tree = hy_compile(hy.read_many(text), m1)
+                    exec(compile(tree, "<ann>", "exec"), m1.__dict__)
+                except Exception as x:
+                    run.cov["annotation_family_rejected"] = run.cov.get("annotation_family_rejected", 0) + 1
+                    continue
+                src = pyast.unparse(tree)
+                m2 = {}
+                try:
+                    exec(compile(pyast.parse(src), "<ann-py>", "exec"), m2)
+                except SyntaxError as x:
+                    run.violation("unparse:" + text, f"hy2py output of {text!r} does not parse: {x}; text: {src!r}",
+                                  {"text": text, "py": src})
+                    continue
+                except Exception as x:
+                    run.violation("differs:" + text, f"hy2py output of {text!r} fails with {type(x).__name__}: {x}",
+                                  {"text": text, "py": src})
+                    continue
+                if repr(m2.get("OUT")) != repr(m1.OUT):
+                    run.violation("differs:" + text, f"{text!r}: compiled AST gives {m1.OUT!r}, hy2py's source gives {m2.get('OUT')!r}",
+                                  {"text": text, "py": src})
+                else:
+                    run.cov["traces_validated_against_impl"] += 1
+    run.cov["annotation_family"] = n
+
+
 def main_c14(run):
     rng = random.Random(run.seed)
     nv = 4
+    annotation_family(run)
     old_names = list(hycore.NAMES)
     # Python keywords and a non-ASCII, hyphenated name in the variable pool
     hycore.NAMES[:] = ["pass", "class", "naïve-λ", "res", "g", "h"]
